@@ -35,6 +35,7 @@ FLOORS = {'quick': {'evaluations': 430, 'distinct_nontrivial': 200, 'monitors': 
           'thorough': {'evaluations': 5000, 'distinct_nontrivial': 2000, 'monitors': {'M5.data_get': 3000}}}
 ASSUMPTIONS = ['"while the checksum is available" is a fact about the server: for scripts with a constant, served checksum the safety clause is judged whether or not the client requested it',
                'loopback HTTP is available in the sandbox; proxies disabled via no_proxy',
+               'a checksum URL that fails transiently (first request only): the safety clause is judged on what the server answers, or would answer, to a checksum request made after the last transfer; request counts are not judged for these scripts',
                'when the checksum is unavailable only "an HTTP error raises" and "file = last body served" '
                'are judged']
 NSHARDS = 16
@@ -85,6 +86,10 @@ class Handler(BaseHTTPRequestHandler):
         if sc is None or sc.get('head') == 'fail':
             return self._send(500, head_only=True)
         body = BODIES[sc['good']]
+        if sc.get('last_modified'):
+            # a server that dates its files: the checksum file is older than the data file
+            lm = 'Tue, 20 Oct 2026 07:28:00 GMT' if self.path.endswith('.md5') else 'Wed, 21 Oct 2026 07:28:00 GMT'
+            return self._send(200, body, head_only=True, headers=[('Last-Modified', lm)])
         if sc.get('head') == 'short':          # a Content-Length that understates / overstates the body
             body = body[:len(body) // 2]
         elif sc.get('head') == 'long':
@@ -101,6 +106,9 @@ class Handler(BaseHTTPRequestHandler):
                     sc = None             # the mirror a data URL redirects to publishes no checksum of its own
                 if sc is None:
                     beh = 'missing'
+                elif isinstance(sc['md5'], dict):
+                    # a transient failure: the first request(s) to the checksum URL fail, every later one is answered
+                    beh = sc['md5']['first'].pop(0) if sc['md5']['first'] else sc['md5']['then']
                 elif isinstance(sc['md5'], list):
                     beh = sc['md5'].pop(0) if sc['md5'] else 'missing'
                 else:
@@ -129,9 +137,11 @@ class Handler(BaseHTTPRequestHandler):
             good = BODIES[sc['good']]
             if beh == 'garbage':
                 return self._send(200, b'<html><body>no such file</body></html>')
-            h = hashlib.md5(good if beh in ('correct', 'upper', 'latin1', 'latin1_undeclared', 'multi', 'bare', 'nolength', 'gzip_md5', 'bare_nl', 'tabbed') else b'something else').hexdigest()
+            h = hashlib.md5(good if beh in ('correct', 'upper', 'latin1', 'latin1_undeclared', 'multi', 'bare', 'nolength', 'gzip_md5', 'bare_nl', 'tabbed', 'html_type') else b'something else').hexdigest()
             if beh in ('bare_nl', 'tabbed'):      # formats the client may or may not understand: only the safety clause is judged
                 return self._send(200, (h + ('\n' if beh == 'bare_nl' else '\tfile.bin\n')).encode())
+            if beh == 'html_type':     # the usual md5sum line, labelled text/html by the server
+                return self._send(200, (h + '  file.bin\n').encode(), headers=[('Content-Type', 'text/html; charset=utf-8')])
             if beh == 'bare':          # only the 32 hex digits: no file name, no line break
                 return self._send(200, h.encode())
             if beh == 'nolength':      # a body delimited by closing the connection (no Content-Length header)
@@ -247,10 +257,19 @@ def run_shard(desc, ctx):
             extra.append({'data': dd, 'md5': 'latin1', 'prior': pr, 'good': 'good', 'head': 'ok'})
             extra.append({'data': dd, 'md5': 'latin1_undeclared', 'prior': pr, 'good': 'good', 'head': 'ok'})
             extra.append({'data': dd, 'md5': 'multi', 'prior': pr, 'good': 'good', 'head': 'ok'})
-            for mm in ('bare', 'nolength', 'gzip_md5'):
+            for mm in ('bare', 'nolength', 'gzip_md5', 'html_type'):
                 extra.append({'data': dd, 'md5': mm, 'prior': pr, 'good': 'good', 'head': 'ok'})
             extra.append({'data': dd, 'md5': 'correct', 'prior': pr, 'good': 'good', 'head': 'ok', 'conditional': True})
             extra.append({'data': dd, 'md5': 'correct', 'prior': pr, 'good': 'good', 'head': 'ok', 'outpath': 'link_dotdot'})
+    # the checksum URL fails on its first request only (a transient error) and answers from then on
+    for dd in (['corrupt', 'good'], ['corrupt', 'corrupt'], ['good'], ['corrupt']):
+        for pr in ('absent', 'valid', 'corrupt'):
+            for then in ('correct', 'wrong'):
+                extra.append({'data': dd, 'md5': {'first': ['missing'], 'then': then}, 'prior': pr, 'good': 'good', 'head': 'ok'})
+    # a server that dates its files (Last-Modified on HEAD): the checksum file is older than the data file
+    for dd in (['corrupt', 'corrupt'], ['corrupt', 'good'], ['good'], ['corrupt', 'corrupt', 'good']):
+        for pr in ('absent', 'corrupt'):
+            extra.append({'data': dd, 'md5': 'correct', 'prior': pr, 'good': 'good', 'head': 'ok', 'last_modified': True})
     # gateway errors (502 / 503) are HTTP errors like any other; servers that honour Range requests
     for dd in (['503'], ['502'], ['corrupt', '503'], ['good'], ['corrupt', 'good'], ['corrupt', 'corrupt']):
         for pr in ('absent', 'valid', 'corrupt'):
@@ -292,8 +311,11 @@ def expected(case):
     outcome in {'return', 'raise'}; None = not determined by the statement."""
     good = case['good']
     md5s = list(case['md5']) if isinstance(case['md5'], list) else None
+    tr = {'first': list(case['md5']['first']), 'then': case['md5']['then']} if isinstance(case['md5'], dict) else None
 
     def next_md5():
+        if tr is not None:
+            return tr['first'].pop(0) if tr['first'] else tr['then']
         if md5s is None:
             return case['md5']
         return md5s.pop(0) if md5s else 'missing'
@@ -379,7 +401,8 @@ def run_case(case, ctx, shared=None):
     elif prior_bytes is not None:
         with open(out, 'wb') as f:
             f.write(prior_bytes)
-    sc = {'data': list(case['data']), 'md5': list(case['md5']) if isinstance(case['md5'], list) else case['md5'],
+    sc = {'data': list(case['data']), 'md5': list(case['md5']) if isinstance(case['md5'], list) else (
+        {'first': list(case['md5']['first']), 'then': case['md5']['then']} if isinstance(case['md5'], dict) else case['md5']),
           'good': good, 'head': case['head'], 'served': [], 'md5_served': [], 'gzip': bool(case.get('gzip'))}
     mirror = None
     if case.get('redirect'):
@@ -393,6 +416,8 @@ def run_case(case, ctx, shared=None):
         sc['md5_delay'] = case['md5_delay']
     if case.get('range'):
         sc['range'] = True
+    if case.get('last_modified'):
+        sc['last_modified'] = True
     with State.lock:
         State.scripts[path] = sc
         if mirror:
@@ -402,9 +427,11 @@ def run_case(case, ctx, shared=None):
     ev.connect(lambda sender, **kw: completes.append(1), event='complete')
     first_bad = case['data'][0] != 'good' and case['data'][0] != 'big_good'
     ctx.count(1, key=hkey(repr(case)), nontrivial=first_bad or case['prior'] in ('corrupt', 'empty'),
-              cell=('md5_%s' % (case['md5'] if isinstance(case['md5'], str) else 'scripted'), 'prior_' + case['prior'],
+              cell=('md5_%s' % (case['md5'] if isinstance(case['md5'], str) else ('transient' if isinstance(case['md5'], dict) else 'scripted')), 'prior_' + case['prior'],
                     'len%d' % len(case['data'])))
     ctx.sample(case, every=41)
+    with State.lock:
+        log0 = len(State.log)
     try:
         r = call(download_file, url, out)
         served = list(sc['served'])
@@ -423,15 +450,33 @@ def run_case(case, ctx, shared=None):
             all_md5_ok = True
             md5_served = md5_served or [case['md5']]
         # (1) the central safety property
-        strict = all(m in ('correct', 'wrong', 'missing', 'latin1', 'multi', 'bare', 'nolength', 'gzip_md5') for m in
+        strict = not isinstance(case['md5'], dict) and all(m in ('correct', 'wrong', 'missing', 'latin1', 'multi', 'bare', 'nolength', 'gzip_md5', 'html_type') for m in
                      (case['md5'] if isinstance(case['md5'], list) else [case['md5']]))
         if r.ok and all_md5_ok:
             last = md5_served[-1]
-            pub = {'correct': published, 'upper': published, 'latin1': published, 'latin1_undeclared': published, 'multi': published, 'bare': published, 'nolength': published, 'gzip_md5': published, 'bare_nl': published, 'tabbed': published, 'garbage': None}.get(
+            pub = {'correct': published, 'upper': published, 'latin1': published, 'latin1_undeclared': published, 'multi': published, 'bare': published, 'nolength': published, 'gzip_md5': published, 'html_type': published, 'bare_nl': published, 'tabbed': published, 'garbage': None}.get(
                 last, hashlib.md5(b'something else').hexdigest())
             if final is None or hashlib.md5(final).hexdigest() != pub:
                 ctx.violation('returned_with_bad_checksum', case,
                               'download_file returned normally but the file does not match the published MD5; ' + info, feats)
+        if isinstance(case['md5'], dict):
+            # the checksum URL failed transiently: what counts is what the server answers (or would answer) to a checksum
+            # request made after the last transfer - a normal return with another file than that checksum describes is a violation
+            with State.lock:
+                lg = [e for e in State.log[log0:] if e[1] in (path, path + '.md5') and e[0] in ('GET', 'GET_MD5')]
+            post = 0
+            for e in reversed(lg):
+                if e[0] != 'GET_MD5':
+                    break
+                post += 1
+            now = md5_served[-1] if post and md5_served else (sc['md5']['first'][0] if sc['md5']['first'] else sc['md5']['then'])
+            ctx.mon('transient_checksum_cases')
+            if r.ok and now in ('correct', 'wrong'):
+                pub_ = published if now == 'correct' else hashlib.md5(b'something else').hexdigest()
+                if final is None or hashlib.md5(final).hexdigest() != pub_:
+                    ctx.violation('returned_with_bad_checksum', case, 'download_file returned normally with a file that does not match the checksum '
+                                  'the server publishes after the last transfer (the checksum URL had failed %d time(s) before); %s' % (
+                                      len(case['md5']['first']), info), dict(feats, transient=True))
         # (2) outcome and request counts per the retry state machine
         if not strict:
             pass
